@@ -425,6 +425,15 @@ func c13Exec(ctx *core.Ctx, c c13Case) {
 		fail("C13:deadlock", "the server neither replies nor reads although the backend has returned: "+deadlock)
 		return
 	}
+	// the message itself must have reached the backend intact whatever the status timing
+	if !panicked0(c) && c.Transfer != "bdatfail" {
+		for di, d := range dataEnds(rig.Log.Events()) {
+			if di == 0 && d.A != msg {
+				fail("C13:message-octets-differ", fmt.Sprintf("the backend read %q, the client sent %q", d.A, msg))
+				return
+			}
+		}
+	}
 	// reference attribution
 	type exp struct {
 		nilStatus bool
@@ -580,3 +589,5 @@ func c13Deadlock(rig *wire.Rig, p *wire.Peer) string {
 	}
 	return "inconclusive"
 }
+
+func panicked0(c c13Case) bool { return c.Panic != "" && c.Panic != "late" }
